@@ -150,7 +150,9 @@ def _shape_pair(rng):
 
 
 def _form(rng, n):
-    return rng.choice(['array', 'list', 'flat', 'tuple'] if n == 1 else ['array', 'list', 'tuple'])
+    """how the positions are handed over (all denote the same numbers)."""
+    forms = ['array', 'array', 'list', 'tuple', 'strided', 'fortran', 'f32']
+    return rng.choice(forms + ['flat', 'flat'] if n == 1 else forms)
 
 
 def _as_input(np, pts, form):
@@ -162,6 +164,16 @@ def _as_input(np, pts, form):
         return tuple(tuple(map(float, p)) for p in pts)
     if form == 'flat':
         return np.array(pts[0], dtype=float)
+    if form == 'strided':
+        big = np.full((2 * len(pts), 6), 7.5)
+        big[::2, ::2] = np.array(pts, dtype=float).reshape(-1, 3)
+        return big[::2, ::2]
+    if form == 'fortran':
+        return np.asfortranarray(np.array(pts, dtype=float).reshape(-1, 3))
+    if form == 'f32':
+        a32 = np.array(pts, dtype=np.float32).reshape(-1, 3)
+        return a32 if np.array_equal(a32.astype(float), np.array(pts, dtype=float).reshape(-1, 3)) \
+            else np.array(pts, dtype=float).reshape(-1, 3)
     raise ValueError(form)
 
 
@@ -774,14 +786,14 @@ def oracle_system(ctx, rng):
             'sys1': {'vects': v1, 'origin': o1, 'pbc': pbc1, 'pos': pos1}}
     i, j = rng.randrange(n), rng.randrange(n)
     ctx.stats.case('oracle:system', (v0, o0, pbc0, pos0, i, j))
-    a = s0.dvect(i, j)
+    a = np.ravel(s0.dvect(i, j))      # values only: the squeeze is compared by the correspondence
     b = am.dvect(np.array(pos0[i]), np.array(pos0[j]), s0.box, s0.pbc)[0]
     if not np.array_equal(a, b):
         ctx.violate('system-dvect', f'System.dvect({i},{j}) = {a.tolist()} differs from dvect of the two positions with the '
                     f"system's box and pbc = {b.tolist()}", {'op': 'oracle-system', **case, 'i': i, 'j': j})
-    a = s0.dmag(i, j)
-    b = am.dmag(np.array(pos0[i]), np.array(pos0[j]), s0.box, s0.pbc)[0]
-    c = float(np.sqrt((s0.dvect(i, j) ** 2).sum()))
+    a = float(np.ravel(s0.dmag(i, j))[0])
+    b = float(am.dmag(np.array(pos0[i]), np.array(pos0[j]), s0.box, s0.pbc)[0])
+    c = float(np.sqrt((np.ravel(s0.dvect(i, j)) ** 2).sum()))
     if a != b or abs(a - c) > 4e-16 * max(c, 1e-300) * 4:
         ctx.violate('system-dmag', f'System.dmag({i},{j}) = {a!r}; dmag of the positions = {b!r}; |System.dvect| = {c!r}',
                     {'op': 'oracle-system', **case, 'i': i, 'j': j})
